@@ -88,17 +88,29 @@ CLAIMED = {
         note=NOTE_COMMON + 'Names are source slices provided by TatSu parseinfo (trusted).',
         technique='Lean 4 proof over the compile model + differential correspondence on parsed text + naming oracle'),
     'C08': dict(
-        text=('Lean theorems: the IN / NOT IN (subquery) truth table (NULL when x is NULL or the subquery is empty, else '
-              'membership; NOT IN the dual) for the node the compiler builds; the table a subquery exposes has one positional '
-              'accessor per visible inner target under the inner names and datatypes (distinct names), with the duplicate-name '
-              'witness. The model materialises subqueries, so FROM (q) = outer over the materialised q holds by construction in '
-              'the model and is tied to the code by correspondence (random inner/outer queries nested to depth 3, IN-subqueries '
-              'over a different table) and by a materialisation oracle run on the implementation itself.'),
+        text=('Lean theorems: (1) compiling any outer statement with FROM (q) IS compiling it with the table materialised from '
+              'q\'s executed result as current table (`C08_from_subquery_materialised`, every outer clause, q arbitrary and nested '
+              'to any depth); (2) `SELECT * FROM (q)` compiles and EXECUTES to exactly q\'s description and rows, for every inner '
+              'query with distinct non-empty output names (`C08_star_from_subquery`, through the compiler and the executor; '
+              'rows are as wide as the description: `C08_rows_match_description`), with the duplicate-name witness where a '
+              'column is lost; (3) the table a subquery exposes has one positional accessor per visible inner target under the '
+              'inner names and datatypes; (4) `x IN (subquery)` compiles to the membership node over the subquery\'s single '
+              'column in row order (`C08_in_subquery_compiles`, more columns = compilation error), whose truth table is NULL when '
+              'x is NULL or the subquery is empty, else membership, NOT IN the dual. Tied to the code by correspondence (random '
+              'inner/outer queries nested to depth 3, IN-subqueries over a different table, ledger tables with structured '
+              'datatypes) and by a materialisation oracle run on the implementation itself.'),
         design='DESIGN.md §5 C08',
         note=NOTE_COMMON + 'Subqueries cannot reference the outer row (BQL restriction).',
         technique='Lean 4 proof (IN truth table, subquery table) + differential correspondence + materialisation oracle'),
     'C09': dict(
-        text=('Lean theorems: a placeholder compiles to what the literal of its bound value compiles to; positional parameters '
+        text=('Lean theorems: the WHOLE-STATEMENT law `C09_literals_statement`: for every statement and every parameters object '
+              'that passes the validation of `Compiler.compile`, compiling with the parameters equals compiling, without '
+              'parameters, the statement in which every placeholder has been replaced by the literal of its bound value '
+              '(`Select.subst`: targets, WHERE, GROUP BY / ORDER BY keys, HAVING, FROM expressions, FROM- and IN-subqueries to '
+              'any depth; proved by mutual induction over the AST and the compiler\'s fuel), no placeholder being left '
+              '(`C09_literals_no_placeholder_left`) because validated parameters bind every placeholder '
+              '(`C09_validated_parameters_bind`); a placeholder-free statement compiles alike under any parameters; node level: '
+              'a placeholder compiles to what the literal of its bound value compiles to; positional parameters '
               'bind in ascending source position (sorted positions proved); named parameters bind by name; constant folding '
               'preserves value and datatype on every row; the model\'s execution is a pure function of (tables, parameters, '
               'statement), and the AST-numbering state machine of the old compiler is shown to break re-execution while the '
